@@ -62,6 +62,11 @@ class IntroduceParameter:
         )
 
     def get_changes(self, new_parameter):
+        local_names = self.pyfunction.get_scope().get_names()
+        if new_parameter in local_names:
+            raise exceptions.RefactoringError(
+                "The function already uses the name <%s>" % new_parameter
+            )
         definition_info = functionutils.DefinitionInfo.read(self.pyfunction)
         definition_info.args_with_defaults.append((new_parameter, self._get_primary()))
         collector = codeanalyze.ChangeCollector(self.resource.read())
